@@ -327,7 +327,24 @@ fn xml_trim(s: &str, start: bool, end: bool) -> &str {
 
 fn text_via(s: &str, mode: u8) -> BytesText<'static> {
     use quick_xml::escape::{escape, minimal_escape, partial_escape};
-    match mode % 8 {
+    match mode % 9 {
+        // escaped by the caller with numeric character references (every markup and every
+        // non-ASCII character, also beyond the BMP; NUL has no reference and stays raw)
+        8 => {
+            let mut t = String::new();
+            for c in s.chars() {
+                if c != '\0' && (!c.is_ascii() || matches!(c, '<' | '>' | '&' | '"' | '\'')) {
+                    if (c as u32) % 2 == 0 {
+                        t.push_str(&format!("&#x{:X};", c as u32));
+                    } else {
+                        t.push_str(&format!("&#{};", c as u32));
+                    }
+                } else {
+                    t.push(c);
+                }
+            }
+            BytesText::from_escaped(t)
+        }
         0 => BytesText::from_escaped(escape(s).into_owned()),
         1 => BytesText::from_escaped(partial_escape(s).into_owned()),
         2 => BytesText::from_escaped(minimal_escape(s).into_owned()),
@@ -658,7 +675,7 @@ const P_STRS: &[&str] = &[
     "<a>", "</a>", "-", "?", "=", "\u{fc}]]>]]>", "\u{65e5}\u{672c}", "]]>]]>", "]", "]>", "a\"b'c", "&#x41;", "<!--", "-->",
     "<![CDATA[", "\t", "  ", "1 < 2 && 3 > 2", "]]]>", "]]>x", "x]]>",
     // "arbitrary values": control characters, line ends of every kind, non-characters
-    "\u{0}", "a\u{0}b", "\u{1}", "\u{8}", "\u{b}", "\u{c}", "\u{1f}", "\u{7f}", "\u{85}", "\u{a0}", "\u{2028}", "\u{fffd}", "\u{ffff}", "\u{10ffff}", "\r", "\r\n", "x\ry",
+    "\u{0}", "a\u{0}b", "\u{1}", "\u{8}", "\u{b}", "\u{c}", "\u{1f}", "\u{7f}", "\u{85}", "\u{a0}", "\u{2028}", "\u{fffd}", "\u{ffff}", "\u{10ffff}", "\r", "\r\n", "x\ry", "\u{20bb7}", "\u{1f600}\u{f0001}",
 ];
 
 fn pstr(rng: &mut Rng) -> String {
@@ -762,7 +779,7 @@ fn gen_build(rng: &mut Rng, open: &mut Vec<String>) -> Build {
             if rng.chance(1, 2) {
                 Build::Text(pstr(rng))
             } else {
-                Build::TextVia { s: pstr(rng), mode: rng.below(8) as u8 }
+                Build::TextVia { s: pstr(rng), mode: rng.below(9) as u8 }
             }
         }
         7 => {
